@@ -37,8 +37,10 @@ ASSUMPTIONS = [
     "performed duration; it is reported (once per case) in the sub-spaces performances and alignments-two-changes; in the "
     "other sub-spaces a decoded grace duration of exactly 0.0 is accepted besides the performed duration, any other "
     "value is a violation everywhere",
-    "two notes with the same score onset and pitch (unison in two voices) are generated only in the sub-space unison; "
-    "the order of their two rows is free, but each note must still come back with its own performed duration",
+    "two notes with the same score onset and pitch (unison in two voices) are generated only in the sub-spaces unison "
+    "(Part input) and unison-forms (Part, Score+Performance, [Part], note arrays; written duration of the doubling note "
+    "shorter/equal/longer); the order of their two rows is free, but each note must still come back with its own "
+    "performed duration, whichever object the same score is handed over as",
     "beat positions of the reference: (division - pickup) * beats per division; one time signature and one divisions "
     "value per score (beat map details are C02's subject)",
     "trusted: numpy, scipy.interpolate.interp1d, PerformedPart construction without pedal (sound_off == note_off)",
@@ -530,6 +532,35 @@ def gen_unison():
     return gen
 
 
+UNISON_FORMS = ["part", "score", "list", "arrays"]
+
+
+def gen_unison_forms():
+    """unison with every duration relation, in every input form (the Score/list forms read the score through the
+    part-list note array, the Part/array forms through the part's own note array)"""
+    def gen():
+        j = 0
+        for pos, rel, v2first, extra in itertools.product((0, 1, 2), (-1, 0, 1), (False, True), (False, True)):
+            notes = [["a0", "n", 0, 2, 67, 1], ["a1", "n", 2, 2, 60, 1], ["a2", "n", 4, 2, 72, 1]]
+            tgt = notes[pos]
+            uni = ["v0", "n", tgt[2], tgt[3] + rel, tgt[4], 2]
+            if v2first:
+                notes.insert(0, uni)
+            else:
+                notes.append(uni)
+            if extra:
+                notes.append(["a3", "n", 6, 1, 55, 1])
+            for form in UNISON_FORMS:
+                for od in ORDERS:
+                    j += 1
+                    sc = {"meter": M.METER_NAMES[(j // 5) % 3], "pickup": 0, "notes": notes}
+                    perf = M.make_perf(sc, BPS_PATTERNS[j % len(BPS_PATTERNS)], (20000, 0)[(j // 3) % 2], STYLES[j % 4],
+                                       10 + j, order=PORDERS[(j // 2) % 3])
+                    yield dict(tag="unison-form pos=%d rel=%d v2first=%d extra=%d order=%s" % (pos, rel, v2first, extra, od),
+                               score=sc, perf=perf, align=M.reorder(M.all_match(sc, perf), od), form=form)
+    return gen
+
+
 def _block(gen, B, b):
     def it():
         for c in gen():
@@ -588,6 +619,11 @@ def spaces(tier, seed):
     sp.append(Space("unison", gen_unison(), True,
                     "unison of voice 2 with the 1st/2nd/3rd note (equal or longer score duration; voice 2 added to the "
                     "part before or after voice 1) x {with, without} an extra note x 3 alignment orders x 3 performance orders; meter cycled"))
+    sp.append(Space("unison-forms", gen_unison_forms(), True,
+                    "three notes in voice 1 (2 grid units each); voice 2 doubles the 1st/2nd/3rd of them (same onset and "
+                    "pitch) with a written duration {shorter, equal, longer} x voice 2 added to the part {before, after} voice 1 x "
+                    "{with, without} a fourth note x input form {Part, Score+Performance, [Part], note arrays} x 3 alignment "
+                    "orders; meter, tempo pattern, chord spread, duration style and performance order cycled; all-match alignment"))
     return sp
 
 
